@@ -42,6 +42,7 @@ type pathState struct {
 	prefix     []decision
 	taken      []decision
 	pc         []*Term
+	pcSet      map[*Term]bool
 	vars       []*Term
 	varSeen    map[*Term]bool
 	varCount   map[string]int
@@ -90,7 +91,19 @@ func (i *interpreter) addPC(t *Term) {
 	if t == tTrue {
 		return
 	}
+	if i.ps.pcSet[t] {
+		return
+	}
+	i.ps.pcSet[t] = true
 	i.ps.pc = append(i.ps.pc, t)
+	// conjunctions contribute their conjuncts as known literals too
+	if t.op == "and" {
+		for _, a := range t.args {
+			if a.op != "and" {
+				i.ps.pcSet[a] = true
+			}
+		}
+	}
 }
 
 // decide picks the side of a symbolic condition for this path.
@@ -102,6 +115,13 @@ func (i *interpreter) decide(cond *Term) bool {
 		return false
 	}
 	ps := i.ps
+	// syntactic shortcut: the condition (or its negation) is literally on the path already
+	if ps.pcSet[cond] {
+		return true
+	}
+	if ps.pcSet[mkNot(cond)] {
+		return false
+	}
 	idx := len(ps.taken)
 	if idx < len(ps.prefix) {
 		d := ps.prefix[idx]
@@ -361,7 +381,7 @@ func (i *interpreter) assume(c value) {
 
 // runOne executes the harness once under the given decision prefix.
 func (ex *explorer) runOne(prog *ssa.Program, fn *ssa.Function, prefix []decision, opts *runOpts) {
-	ps := &pathState{prefix: prefix, varCount: map[string]int{}, varSeen: map[*Term]bool{}, reach: map[string]bool{}, extra: map[string]string{}}
+	ps := &pathState{prefix: prefix, pcSet: map[*Term]bool{}, varCount: map[string]int{}, varSeen: map[*Term]bool{}, reach: map[string]bool{}, extra: map[string]string{}}
 	i := &interpreter{
 		prog:       prog,
 		globals:    map[*ssa.Global]*value{},
@@ -373,6 +393,7 @@ func (ex *explorer) runOne(prog *ssa.Program, fn *ssa.Function, prefix []decisio
 		maxSteps:   opts.maxSteps,
 		tracing:    opts.tracing,
 		side:       map[interface{}]interface{}{},
+		origin:     map[*value][]value{},
 	}
 	if rt := prog.ImportedPackage("runtime"); rt != nil {
 		if m := rt.Type("errorString"); m != nil {
